@@ -33,7 +33,15 @@ func binarySessions(r *mon.Run) {
 		}
 	})
 	r.Floor("binary_sessions", int64(n))
+	var namings []logNaming
+	for i := 0; i < n; i++ {
+		namings = append(namings, binaryNaming(i))
+	}
+	namingFloors(r, "binary", namings, false)
 }
+
+// binaryNaming: how session idx names its log file to the program.
+func binaryNaming(idx int) logNaming { return planNaming(idx, 3) }
 
 // truth is what the harness itself did to one run of the binary (ground truth
 // of the part of the session whose records are expected in a stretch of the log).
@@ -254,14 +262,18 @@ func binarySession(r *mon.Run, bin string, idx int) {
 	home := filepath.Join(r.Work, fmt.Sprintf("bin-%d", idx))
 	logf := filepath.Join(home, "session.json")
 	os.MkdirAll(home, 0o755)
-	s, err := crs.Start(bin, home, "-listen-address", "127.0.0.1:0", "-tls-certificate-cache", "", "-log", logf)
+	naming := binaryNaming(idx)
+	s, decoy, err := startNamed(bin, home, logf, naming, "0")
 	if err != nil {
 		r.Inconclusive("binary did not start: " + err.Error())
 		return
 	}
 	defer s.Close()
 	var t truth
-	var script []string
+	script := []string{"log file named by " + naming.String()}
+	if decoy != "" {
+		script = append(script, "CURLREVSHELL_LOG names another file, "+filepath.Base(decoy))
+	}
 	viol := func(key, what string) {
 		b, _ := os.ReadFile(logf)
 		r.Violate("binary", idx, key, what, map[string]any{"script": script, "log_file_tail": tailS(string(b), 3000), "terminal_tail": tailS(s.P.Clean(), 1500)})
@@ -277,7 +289,7 @@ func binarySession(r *mon.Run, bin string, idx int) {
 	// ---- reconstruct the session from the log file alone ----
 	b, err := os.ReadFile(logf)
 	if err != nil {
-		viol("log-file-missing", err.Error())
+		viol("log-file-missing", fmt.Sprintf("log file named by %s: %v", naming, err))
 		return
 	}
 	g, badLine := parseLog(b)
@@ -289,6 +301,7 @@ func binarySession(r *mon.Run, bin string, idx int) {
 	compareRecon(&t, g, viol)
 	r.Eval(1)
 	r.Count("binary_sessions", 1)
+	naming.count(r, "binary")
 	r.Count("binary_connections", int64(len(g.conns)))
 	r.Count("binary_refusals", int64(len(g.refused)))
 	r.Count("binary_input_lines", int64(len(g.in)))
